@@ -212,7 +212,7 @@ def classify_failure(l, table, code, info):
 def request_of(l):
     r = {"ep": l["ep"], "zone": l["zone"], "cluster": l["cluster"], "schema": l["schema"], "class": l["class"],
          "from_ns": l["win_from_ns"], "to_ns": l["win_to_ns"]}
-    for k in ("gen", "pgen"):     # generated request parameters (tempo_search_gen, prom_gen)
+    for k in ("gen", "pgen", "port"):     # generated request parameters (tempo_search_gen, prom_gen, portioned search with rows)
         if l.get(k):
             r[k] = l[k]
     return r
@@ -321,6 +321,9 @@ def theorem_of(l):
         return "prof_every_scan_bounded (ReplanProf.pprocess)"
     if ep == "prof_types":
         return "profile_types_every_scan_bounded (ScansProf.profile_types_query)"
+    if ep == "tempo_search_traceql_portions_rows":
+        return ("traceql_estimate_every_scan_bounded (ScansTq.TE.plan_eval)" if sql.startswith("WITH pre_final") else
+                "traceql_every_scan_bounded (TraceqlPlan.plan) + traceql_portions_keep_every_candidate (ScansPortions)")
     if ep in TQ_EPS and not sql.startswith("WITH pre_final"):
         return "traceql_every_scan_bounded (TraceqlPlan.plan)"
     if ep in TQ_EPS:
@@ -358,7 +361,7 @@ def run_scan(ck):
         if os.path.exists(corpus):
             runs.append(("corpus", ["--cases", corpus]))
         sweep = ["--seed", ck.seed, "--random-windows", ck.n(3, 40), "--tails", ck.n(2, 6), "--cluster", "both",
-                 "--schemas", "new" if ck.quick() else "both", "--tempo-gen", ck.n(60, 1500), "--prom-gen", ck.n(48, 3000)]
+                 "--schemas", "new" if ck.quick() else "both", "--tempo-gen", ck.n(60, 1500), "--prom-gen", ck.n(48, 3000), "--port-gen", ck.n(40, 3000)]
         runs.append(("sweep", sweep))
     hist = {}
     split = {"statements_whose_builder_is_under_a_theorem_for_all_inputs": 0, "statements_judged_per_statement_only": 0,
@@ -380,11 +383,13 @@ def run_scan(ck):
         if name == "sweep" and res:
             # the model-vs-recorded-text comparisons are independent Coq evaluations: run them side by side
             from concurrent.futures import ThreadPoolExecutor
-            with ThreadPoolExecutor(max_workers=6) as ex:
+            with ThreadPoolExecutor(max_workers=7) as ex:
                 futs = [ex.submit(run_traceql_tie, ck, lines, res)] + [ex.submit(f, ck, lines) for f in
-                        (run_estimate_tie, run_label_tie, run_prof_tie, run_tempo_tie, run_prom_tie)]
+                        (run_estimate_tie, run_label_tie, run_prof_tie, run_tempo_tie, run_prom_tie, run_portions_tie)]
                 for f in futs:
                     f.result()
+        if name != "sweep":
+            run_portions_tie(ck, lines, required=False)
         if name == "sweep":
             # every endpoint must have been exercised: a request that stops answering with SQL is a silent loss of coverage
             by_ep = {}
@@ -944,6 +949,67 @@ def run_prom_tie(ck, lines):
     ck.extra["prom_model_ties"] = len(sel_cases) + len(fetch_cases)
     ck.extra["prom_select_generated_distribution"] = ghist
     ck.coverage["evaluations"] += len(sel_cases) + len(fetch_cases)
+
+
+# ---------------------------------------------------------------- portioned TraceQL search: the window of every portion
+def run_portions_tie(ck, lines, required=True):
+    """ComplexRequestProcessor narrows ctx.From between the portions of a portioned search. The scripted database answers the
+    search statement of every portion with generated rows; the lower bounds of the recorded statements are compared with
+    ScansPortions.process_froms (model = implementation) and judged by spec_ok (never above the oldest trace the last full
+    portion kept, never below the requested From) - proved of the model for every history by traceql_portions_keep_every_candidate"""
+    reqs = {l["req"]: l for l in lines if l["kind"] == "req" and l["ep"] == "tempo_search_traceql_portions_rows" and l.get("port")}
+    obs = {}
+    for l in lines:
+        if l["kind"] == "stmt" and l["req"] in reqs and l.get("portion"):
+            m = re.search(r"\(traces_idx\.timestamp_ns\) >= \((\d+)\)", l["sql"])
+            obs.setdefault(l["req"], []).append(int(m.group(1)) if m else -1)
+    if not reqs:
+        if required:
+            ck.obligation("portioned TraceQL searches with rows ran", False, "no request found")
+        return
+    zl = lambda xs: "[" + "; ".join(str(x) for x in xs) + "]"
+    ids = sorted(reqs)
+    items = ["{| pc_id := %d; pc_from := %d; pc_limit := %d; pc_rows := [%s]; pc_obs := %s |}" % (
+        i, reqs[i]["from_ns"], reqs[i]["port"]["limit"], "; ".join(zl(r or []) for r in reqs[i]["port"]["rows"]), zl(obs.get(i, []))) for i in ids]
+    txt = ("From Coq Require Import List ZArith.\nFrom Qryn Require Import model.ScansPortions.\nImport ListNotations.\nOpen Scope Z_scope.\n"
+           "Definition cases : list portion_case := [\n " + ";\n ".join(items) + "].\n"
+           "Definition M := Eval vm_compute in pc_mismatches cases.\nPrint M.\n"
+           "Definition V := Eval vm_compute in pc_spec_violations cases.\nPrint V.\n")
+    rc, out = ck.coq_eval("C13_portions", txt, timeout=600)
+    flat = " ".join((out or "").split())
+    m = re.search(r"M = \[(.*?)\]\s*: list Z", flat)
+    v = re.search(r"V = \[(.*?)\]\s*: list Z", flat)
+    if rc != 0 or not m or not v:
+        ck.obligation("portion windows evaluated inside Coq", False, (out or "")[-1500:])
+        return
+    mm = [int(x) for x in re.findall(r"-?\d+", m.group(1))]
+    vv = [int(x) for x in re.findall(r"-?\d+", v.group(1))]
+    hist = {}
+    for i in ids:
+        g = reqs[i]["port"]
+        nfull = sum(1 for r in g["rows"][:-1] if len(r or []) == g["limit"])
+        for k in ("portions=%d" % len(g["rows"]), "limit=%d" % g["limit"], "narrowing-portions=%d" % nfull,
+                  "whole-second-start-kept" if any(st % 10**9 == 0 for r in g["rows"] for st in (r or [])) else "no-whole-second-start"):
+            hist[k] = hist.get(k, 0) + 1
+    short = [i for i in ids if len(obs.get(i, [])) != len(reqs[i]["port"]["rows"])]
+    narrowing = sum(v for k, v in hist.items() if k.startswith("narrowing-portions=") and not k.endswith("=0"))
+    ck.obligation("every portion of %d portioned searches sent its search statement (2-4 portions, limit 1-5, scripted rows)" % len(ids),
+                  not short and (not required or (len(ids) >= 30 and narrowing >= 10)),
+                  "; ".join("req %d: %d statements for %d portions" % (i, len(obs.get(i, [])), len(reqs[i]["port"]["rows"])) for i in short[:3]) or "narrowing cases: %d" % narrowing)
+    desc = lambda i: "window from %d limit %d rows %s sent with %s" % (reqs[i]["from_ns"], reqs[i]["port"]["limit"], reqs[i]["port"]["rows"], obs.get(i))
+    ck.obligation("correspondence: ScansPortions.process_froms = lower bound of the search statement of every portion (%d searches)" % len(ids),
+                  not mm, "; ".join(desc(i) for i in mm[:2]))
+    ck.obligation("spec: no portion is sent with a lower bound above the oldest trace the last full portion kept, or below the requested From",
+                  not vv, "; ".join(desc(i) for i in vv[:2]))
+    if vv:
+        i = min(vv, key=lambda i: (len(reqs[i]["port"]["rows"]), reqs[i]["port"]["limit"]))
+        q = reqs[i]
+        ck.violation({"property": "C13", "part": "portioned TraceQL search", "kind": "a portion of the search is sent with a window that leaves out traces of the answer",
+                      "requested_from_ns": q["from_ns"], "requested_to_ns": q["to_ns"], "limit": q["port"]["limit"],
+                      "rows_returned_per_portion_start_ns": q["port"]["rows"], "lower_bound_of_each_portion_ns": obs.get(i),
+                      "request": request_of(q), "replay": "bin/check C13 --replay <this file>"})
+    ck.extra["portioned_search_distribution"] = hist
+    ck.coverage["evaluations"] += len(ids)
 
 
 # ---------------------------------------------------------------- Tempo v1: statement model vs recorded text
